@@ -3,6 +3,7 @@ import Driver.Sec
 import Driver.Brk
 import Driver.C01
 import Driver.C04
+import Driver.C05
 import Driver.C06
 import Driver.C09
 import Driver.C10
@@ -49,6 +50,7 @@ def main (args : List String) : IO UInt32 := do
   | ["C18"] => loopSt stdin stdout Brk.stepLine {}; return 0
   | ["C03"] => loopSt stdin stdout Sec.step {}; return 0
   | ["C04"] => loopSt stdin stdout C04.step {}; return 0
+  | ["C05"] => loopSt stdin stdout C05.step {}; return 0
   | ["C06"] => loopSt stdin stdout C06.step {}; return 0
   | ["C09"] => loop stdin stdout C09.step; return 0
   | ["C10"] => loopSt stdin stdout C10.step {}; return 0
